@@ -491,6 +491,39 @@ pub fn run(tier: Tier) -> i32 {
     ];
     let st = run_space(round2.len(), |i| verify(&round2[i].1, &[("e", round2[i].2)], round2[i].0, 1));
     rep.absorb("second-round", st);
+    // a <use> placed relative to another element: the box of its INSTANCE (the target's box, moved by the target's own
+    // transform and by the use's x / y) is what is placed. Reference: base = (10,5)-(20,15); expected x / y of the use.
+    let base = r##"<rect id="base" xy="10 5" wh="10"/>"##;
+    let uses: Vec<(&str, &str, &str, (f64, f64))> = vec![
+        // (name, target in <defs>, position spec of the use, expected (x, y) of the use)
+        ("origin-rect/h", r##"<rect id="t" wh="5"/>"##, r##"xy="#base|h 2""##, (22., 7.5)),
+        ("origin-rect/v", r##"<rect id="t" wh="5"/>"##, r##"xy="#base|v 2""##, (12.5, 17.)),
+        ("origin-rect/H", r##"<rect id="t" wh="5"/>"##, r##"xy="#base|H 2""##, (3., 7.5)),
+        ("origin-rect/loc", r##"<rect id="t" wh="5"/>"##, r##"xy="#base@br""##, (20., 15.)),
+        ("transformed-group/h", r##"<g id="t" transform="translate(10 3)"><rect wh="5"/></g>"##, r##"xy="#base|h 2""##, (12., 4.5)),
+        ("transformed-group/v", r##"<g id="t" transform="translate(10 3)"><rect wh="5"/></g>"##, r##"xy="#base|v 2""##, (2.5, 14.)),
+        ("transformed-group/V", r##"<g id="t" transform="translate(10 3)"><rect wh="5"/></g>"##, r##"xy="#base|V 2""##, (2.5, -5.)),
+        ("offset-rect/h", r##"<rect id="t" xy="5 7" wh="5"/>"##, r##"xy="#base|h 2""##, (17., 0.5)),
+        ("offset-rect/v", r##"<rect id="t" xy="5 7" wh="5"/>"##, r##"xy="#base|v 2""##, (7.5, 10.)),
+    ];
+    let st = run_space(uses.len(), |i| {
+        let (name, target, spec, (wx, wy)) = uses[i];
+        let doc = format!("<svg>{base}<defs>{target}</defs><use id=\"e\" href=\"#t\" {spec}/></svg>");
+        let out = run_str(&doc, &Cfg::plain());
+        let got = match &out {
+            Outcome::Ok(o) => crate::xmlref::parse_tree(o, crate::xmlref::Mode::Document).ok().and_then(|t| crate::xmlref::root(&t).and_then(|r| r.find_id("e").map(|e| (e.attr("x").and_then(|v| v.parse::<f64>().ok()).unwrap_or(0.), e.attr("y").and_then(|v| v.parse::<f64>().ok()).unwrap_or(0.))))),
+            _ => None,
+        };
+        let ok = matches!(got, Some((x, y)) if (x - wx).abs() < 0.0011 && (y - wy).abs() < 0.0011);
+        CaseResult {
+            case_hash: hash64(&doc),
+            nontrivial: ok,
+            outcome_hash: hash64(&format!("{out:?}")),
+            executions: 1,
+            violation: if ok { None } else { Some(Violation { clause: "use-misplaced".into(), signature: format!("C09/use-placement/{name}"), case: json!({"input": doc}), detail: format!("{doc}\nexpected the use at x={wx} y={wy}, observed {got:?}\n{}", clip(&out.brief(), 300)) }) },
+        }
+    });
+    rep.absorb("use-placement", st);
     rep.set("also_round2", json!("Second review round: decimal and percent edge offsets inside points, dirspec placement of lines given one length and of circles / ellipses sized by rxy / width / r, <text> anchored by cxy and xy-loc, dw / dh on circles and ellipses."));
     rep.assume("dependent elements are rect, circle and ellipse (their output geometry is directly observable); box/point/group/line occur as references only; relative sizes are asserted for rect dependents");
     rep.finish()
